@@ -60,6 +60,9 @@ def cases(tier, seed):
             ps = gen.rand_spec(rng, ("log_barrier", "qp_inf_region", "qp_inf_region"), nmax=6, boxes=("none", "none", "upper"), starts=("interior",))
             cfg["jac"] = "callable"
             s = float(np.exp(rng.uniform(np.log(1e-3), np.log(0.3))))
+        elif i % 10 == 9 and cfg["jac"] == "callable":
+            # a very large or very small factor (1e6 .. 1e15 either way), or exactly 1.0 (a scaler that scales nothing)
+            s = float(gen.pick(rng, [1.0, float(10.0 ** rng.uniform(6, 15)), float(10.0 ** -rng.uniform(6, 15))]))
         elif i % 10 == 1 and cfg["jac"] == "callable":
             # a factor that differs from 1 in the 6th to 13th digit only: it is a factor like any other
             s = float(1.0 + float(rng.choice([-1.0, 1.0])) * 10.0 ** rng.uniform(-13, -5.5))
